@@ -253,8 +253,8 @@ def _entries():
         X.aper.to_mask()[0].get_values(np.asarray(getattr(X.d, 'value', X.d)),
                                        mask=X.m)]
     E['Background2D'] = lambda X: Background2D(
-        X.d, (11, 13), mask=X.m, coverage_mask=X.cov, filter_size=3,
-        exclude_percentile=30.0)
+        X.d, (11, 13), mask=X.m, coverage_mask=X.cov, fill_value=7.0,
+        filter_size=3, exclude_percentile=30.0)
     E['Background2D_fullwidth'] = lambda X: Background2D(
         X.d, (8, X.shape[1]), mask=X.m, filter_size=1, exclude_percentile=60.0)
     E['Background2D_thin_boxes'] = lambda X: Background2D(
